@@ -115,9 +115,15 @@ def scan_concrete(prog, text_, ntok=1):
         def ungetc(it2, a, e):
             if a[0] != -1: pos['i'] -= 1
             return 0
+        def bufadd(i2, a, e):
+            b = a[0]
+            ln = i2.load(b.obj, b.path + ('len',)); st_ = i2.load(b.obj, b.path + ('str',))
+            i2.assign(st_.obj, (ln,), a[1] & 0xff if isinstance(a[1], int) and a[1] >= 0 else a[1])
+            i2.assign(b.obj, b.path + ('len',), ln + 1)
+            return None
         it.models.update({'getc': getc, 'ungetc': ungetc,
                           'error': lambda i2, a, e: (_ for _ in ()).throw(Terminal('error', a)),
-                          'bufadd': lambda i2, a, e: None})
+                          'bufadd': bufadd})
         s = Obj('scanner', 'heap')
         s.f[('chr',)] = 0; s.f[('usebuf',)] = 0; s.f[('sawspace',)] = 0
         s.f[('file',)] = Ptr(Obj('FILE', 'heap'), ())
@@ -129,7 +135,7 @@ def scan_concrete(prog, text_, ntok=1):
             loc = Obj('loc', 'heap')
             k = it.call(sk, [Ptr(s, ()), Ptr(loc, ())])
             out.append((k, loc.f.get(('line',)), loc.f.get(('col',))))
-            s.f[('usebuf',)] = 0
+            s.f[('usebuf',)] = 0; s.f[('buf', 'len')] = 0
         return out
     runs = explore(prog, runner, {}, max_runs=2)
     if len(runs) != 1 or runs[0].outcome != 'return':
